@@ -70,7 +70,7 @@ def run(tier):
         "regenerates the wiring table the theorem C09_wiring_of_the_source_is_sound is proved against",
         "the matrix 'every registry / settings class can affect some observation' is hand-written",
     ]
-    R.coq_build(["Gen/Tables.v", "Small/Cache.v"])
+    R.coq_build(["Gen/Tables.v", "Small/Cache.v", "Small/CacheGen.v"])
     rng = R.rng
     nh, maxlen = dict(quick=(70, 9), thorough=(700, 14))[tier]
     hists = []
